@@ -1,14 +1,15 @@
 """C10 - every job in a shared job file is executed exactly once and never lost (partial; DESIGN.md section 5, C10)"""
 import os, re, itertools, copy
+import sympy as sp
 from vlib import core, rvc
 from vlib.core import Ob
-from vlib.rvc import Exec, Ret, Thrown, ListIt
+from vlib.rvc import Exec, Ret, Thrown, ListIt, SInt
 
 META = {
     'level': 'other', 'functions': [],
     'trusted_base': ['clang 14 AST of progressobserver.cc / job.cc (instantiation ProgObserver<std::vector<Job>>)', 'RVC executor (control flow, containers, iterators as models)',
                      'ghost event log behind the callee contracts: file_lock::lock/unlock, LOAD_JOBS, WRITE_JOBS, tools::Mutex::Lock/Unlock, Job accessors (isAvailable, getHost, setStatus, Reset, UpdateFrom ...)'],
-    'assumptions': ['job lists of at most 3 jobs, enumerated status / host combinations (bounded); one process at a time'],
+    'assumptions': ['whole-function event order: job lists of at most 3 jobs, enumerated status / host combinations (bounded); assignment loop: any list length (per-iteration contract); one process at a time'],
     'not_decided': ['interleavings of several processes at the load/modify/write steps', 'crash points inside WRITE_JOBS (file or backup complete at every instant)', 'XML (de)serialisation of jobs',
                     'boost::interprocess::file_lock itself', 'the lemma "exclusive lock + load-merge-write under the lock => exactly once across processes" is an argument over these contracts, not machine-checked'],
     'explanation': 'Sequential ghost-state contracts of LockProgFile / SyncWithProgFile / RequestNextJob / UPDATE_JOBS checked on every path of the real bodies for all job lists up to a small bound (enumerated): lock mode, '
@@ -280,6 +281,84 @@ def job_update(seed):
     return obs
 
 
+def job_sync_inductive(seed):
+    """the assignment loop of SyncWithProgFile for job lists of ANY length: one pass of the while loop from its head, for an arbitrary scan position, an arbitrary job state and arbitrary
+    counters (per-iteration contract).  By induction: cache and maxjobs limits, only eligible jobs assigned, none skipped, each at most once, the scan only advances."""
+    import z3
+    rvc.reset()
+    fns = fns_all()
+    fn = fns['SyncWithProgFile'][0]
+    F = 'ProgObserver::SyncWithProgFile'
+    wl = [n for n in rvc.walk(rvc.body_of(fn)) if n.get('kind') == 'WhileStmt']
+    if len(wl) != 1:
+        raise core.Undecided('SyncWithProgFile: one assignment loop expected, found %d' % len(wl))
+    cond, body = wl[0]['inner'][0], wl[0]['inner'][1]
+    mfs = [{'name': F, 'file': 'xtp/src/libxtp/progressobserver.cc', 'ast_nodes': rvc.node_count(fn), 'route': 'RVC, assignment loop closed by a per-iteration contract (unbounded job list)'}]
+    obs = []
+    k, c, s_, m, p, n = [sp.Symbol(x, integer=True) for x in ('cached', 'cacheSize', 'started', 'maxJobs', 'pos', 'njobs')]
+    zk, zc, zs, zm, zp, zn = [z3.Int(x) for x in ('cached', 'cacheSize', 'started', 'maxJobs', 'pos', 'njobs')]
+    for status, host in STATES:
+        for rs, rh in (((), ()), (('FAILED',), ()), ((), ('other:2',))):
+            P = rvc.Paths()
+            while True:
+                P.start()
+                rvc.CTX.base = [zk >= 0, zc >= 0, zs >= 0, zm >= 0, zp >= 0, zp <= zn, zk <= zc, zs <= zm]        # the loop invariant at the head of an iteration
+                job = {'status': status, 'host': host, 'touched': []}
+                pushed = []
+                class Cache:
+                    def call(s2, name, args):
+                        if name == 'size': return SInt(k + len(pushed))
+                        if name == 'push_back':
+                            pushed.append(args[0]); return None
+                        raise rvc.Unsupported('jobsToProc_.' + name)
+                class It(rvc.ListIt):
+                    def __init__(s2, pos): s2.pos = pos; s2.lst, s2.i = [], 0
+                    def deref(s2):
+                        if P.decide(sp.Ge(s2.pos, n)):
+                            raise rvc.Unsupported('dereference of the end iterator')
+                        return job
+                    def advance(s2, d): s2.pos = s2.pos + d; return s2
+                    def __eq__(s2, o): return sp.Eq(s2.pos, o.pos) if isinstance(o, It) else False
+                    def __ne__(s2, o): return sp.Ne(s2.pos, o.pos) if isinstance(o, It) else True
+                it = It(p)
+                cb = {'enum': lambda nn: LEVELS.get(nn, nn), 'decide': P.decide, 'getLogger': lambda t: 'LOGGER', 'getReportLevel': lambda l: -1, 'end': lambda o: It(n),
+                      'GenerateHost': lambda o=None: ME, 'GenerateTime': lambda o=None: 'T',
+                      'isAvailable': lambda j: j['status'] == 'AVAILABLE', 'getStatusStr': lambda j: j['status'], 'getHost': lambda j: j['host'] or '',
+                      'Reset': lambda j: j['touched'].append('reset'), 'setStatus': lambda j, v: (j.__setitem__('status', v), j['touched'].append('status'))[1],
+                      'setHost': lambda j, h: (j.__setitem__('host', h), j['touched'].append('host'))[1], 'setTime': lambda j, t: j['touched'].append('time')}
+                this = {'jobs_': 'JOBS', 'metajit_': it, 'jobsToProc_': Cache(), 'maxJobs_': SInt(m), 'startJobsCount_': SInt(s_), 'restartMode_': bool(rs or rh), 'restart_stats_': MapModel(rs), 'restart_hosts_': MapModel(rh)}
+                ex = Exec({'thread': 'THREAD', 'cacheSize': SInt(c)}, cb, fns, this)
+                outcome = 'exit'
+                if ex.truth(ex.expr(cond)):
+                    try:
+                        ex.stmt(body); outcome = 'next'
+                    except rvc.Brk:
+                        outcome = 'break'
+                tag = '%s.%s.%s.p%d' % (status, (host or 'none').replace(':', ''), 'rs' if rs else ('rh' if rh else 'norestart'), P.count)
+                elig = status == 'AVAILABLE' or (bool(rs or rh) and (status in rs or (host or '') in rh))
+                room = z3.And(zk < zc, zp < zn, zs < zm)
+                if outcome == 'next':
+                    o = rvc.logic('C10.sync.ind/%s/guard' % tag, F, 'the loop body runs only while the cache has room, jobs remain to be scanned and the job limit is not reached', room, pc=P.pc); o['functions'] = mfs; obs.append(o)
+                    assigned = len(pushed) == 1 and pushed[0] is job
+                    okA = assigned == elig and (not assigned or (job['status'] == 'ASSIGNED' and job['host'] == ME and set(job['touched']) >= {'reset', 'status', 'host', 'time'})) and (assigned or not job['touched'])
+                    o = Ob('C10.sync.ind/%s/assign' % tag, F, 'the scanned job is assigned exactly when it is AVAILABLE or matches the restart pattern; an assigned job is reset, marked ASSIGNED to this host with a time stamp and cached once; any other job is not touched',
+                           'RVC', 'symbolic execution', core.PROVED if okA else core.REFUTED, 0, 'eligible=%s assigned=%s touched=%s' % (elig, assigned, job['touched']), witness=None if okA else {'status': status, 'host': host, 'restart': str((rs, rh))})
+                    o['functions'] = mfs; obs.append(o)
+                    okC = sp.expand(SInt.ex(this['startJobsCount_']) - s_ - (1 if assigned else 0)) == 0 and sp.expand(this['metajit_'].pos - p - 1) == 0
+                    o = Ob('C10.sync.ind/%s/counters' % tag, F, 'the started-jobs counter grows by one per assignment, the scan position by exactly one per pass (no job is skipped or scanned twice)', 'RVC', 'symbolic execution',
+                           core.PROVED if okC else core.REFUTED, 0, 'started %s pos %s' % (this['startJobsCount_'], this['metajit_'].pos), witness=None if okC else {})
+                    o['functions'] = mfs; obs.append(o)
+                    o = rvc.logic('C10.sync.ind/%s/invariant' % tag, F, 'the limits hold again after the pass: cached <= cacheSize, started <= maxJobs, position <= number of jobs',
+                                  z3.And(zk + len(pushed) <= zc, zs + (1 if assigned else 0) <= zm, zp + 1 <= zn), pc=P.pc); o['functions'] = mfs; obs.append(o)
+                else:
+                    o = rvc.logic('C10.sync.ind/%s/stop' % tag, F, 'the loop stops only when the cache is full, every job has been scanned, or the job limit is reached (no early stop)', z3.Not(room), pc=P.pc); o['functions'] = mfs; obs.append(o)
+                    okN = not pushed and not job['touched']
+                    o = Ob('C10.sync.ind/%s/stop-clean' % tag, F, 'a stopping pass assigns nothing', 'RVC', 'symbolic execution', core.PROVED if okN else core.REFUTED, 0, '', witness=None if okN else {}); o['functions'] = mfs; obs.append(o)
+                if not P.next():
+                    break
+    return obs
+
+
 def collect(obs):
     seen = set(f['name'] for f in META['functions'])
     for o in obs:
@@ -290,7 +369,7 @@ def collect(obs):
 
 
 def run(tier, seed, only=None):
-    jobs = [(job_sync, (n, seed)) for n in ((0, 1, 2) if tier == 'quick' else (0, 1, 2, 3))] + [(job_request, (seed,)), (job_update, (seed,))]
+    jobs = [(job_sync, (n, seed)) for n in ((0, 1, 2) if tier == 'quick' else (0, 1, 2, 3))] + [(job_request, (seed,)), (job_update, (seed,)), (job_sync_inductive, (seed,))]
     if only:
         jobs = [j for j in jobs if re.search(only, j[0].__name__ + str(j[1]))]
     obs = core.pmap(jobs)
